@@ -14,7 +14,7 @@ Definition tAttr (t : Tree) : h5attr :=
   | _ => AFlts (tLZ (tnth t 1))
   end.
 
-(* node: [0,[[name,node],...]] group | [1,[texts]] | [2,ints] | [3,float codes] | [4] empty *)
+(* node: [0,[[name,node],...]] group | [1,[texts]] | [2,ints] | [3,float codes] | [4] empty | [5,n] other kind *)
 Fixpoint tNode (t : Tree) : h5node :=
   match t with
   | I _ => HEmpty
@@ -28,6 +28,7 @@ Fixpoint tNode (t : Tree) : h5node :=
       | [I 1; L xs] => HStrs (map tLZ xs)
       | [I 2; L xs] => HInts (map tZ xs)
       | [I 3; L xs] => HFlts (map tZ xs)
+      | [I 5; I n] => HOther (Z.to_nat n)
       | _ => HEmpty
       end
   end.
